@@ -25,3 +25,5 @@ def one(sid):
         shutil.rmtree(d, True)
 with ThreadPoolExecutor(par) as ex:
     for s in ex.map(one, ids): print(s, flush=True)
+# every ./run above rewrote evidence/<prop>.json with the MUTANT's result: put the committed files of the unchanged tree back
+subprocess.run(['git', 'checkout', '--'] + sorted({'evidence/%s.json' % s[:3] for s in ids}), cwd='/verif')
